@@ -90,6 +90,9 @@ func (o Int) BinaryOp(tok token.Token, right Object) (Object, error) {
 			}
 			return o / v, nil
 		case token.Rem:
+			if v == 0 {
+				return nil, ErrZeroDivision
+			}
 			return o % v, nil
 		case token.And:
 			return o & v, nil
@@ -236,6 +239,9 @@ func (o Uint) BinaryOp(tok token.Token, right Object) (Object, error) {
 			}
 			return o / v, nil
 		case token.Rem:
+			if v == 0 {
+				return nil, ErrZeroDivision
+			}
 			return o % v, nil
 		case token.And:
 			return o & v, nil
@@ -502,6 +508,9 @@ func (o Char) BinaryOp(tok token.Token, right Object) (Object, error) {
 			}
 			return o / v, nil
 		case token.Rem:
+			if v == 0 {
+				return nil, ErrZeroDivision
+			}
 			return o % v, nil
 		case token.And:
 			return o & v, nil
